@@ -5,6 +5,7 @@ PID = "C11"
 RULE = ("every case = (old content at path A: absent / EMD file / junk bytes / non-EMD HDF5, new input of each kind: node, "
         "array, dict, Metadata, list) x every spelling of every mode plus unknown spellings x tree option; the same input is also "
         "written with 'w' to a fresh path B; observations: outcome, sha256 of A before/after, raw walks of A and B; "
+        "in half of the overwrites of an HDF5 file the OLD file is still held open read-only elsewhere in the process; "
         "non-trivial = old content present; distinct by recipe hash")
 MODES = ["w", "write", "o", "overwrite", "a", "+", "append", "ao", "oa", "o+", "+o", "appendover"]
 BAD = ["", "r", "x", "W", "wa", "append-over", "ow", "A"]
